@@ -1,6 +1,6 @@
 (* Boolean checkers evaluated by vm_compute on the implementation's exact float32 values (as rationals).
    Used by the correspondence runs of C01 / C03 / C08 / C09 / C11 / C14.  No proofs here. *)
-From Coq Require Import ZArith QArith List Bool.
+From Coq Require Import ZArith QArith Qround List Bool.
 From VQ Require Import Num Model.Vec Model.Core.
 From VQ.Gen Require Import k_expire_cmp.
 Import ListNotations.
@@ -109,3 +109,27 @@ Definition shared_expire_check (tolE tolS : Q) (cfg : ccfg Q) (s0 : cstate Q) (l
   | O => if forallb (in_pool tolE pool) picks then 0 else 5
   | n => n
   end.
+
+(* C14: invariants of the state right after k-means initialisation (evaluated on the implementation's state) :
+   1 = counts do not add up to the number of valid tokens, 2 = running sums <> code * count,
+   3 = count-weighted sum of codes <> sum of the data (Euclid), 4 = a seed is not a data row, 5 = flag not set,
+   6 = a count is negative or not an integer *)
+Definition is_nat_q (q : Q) : bool := Qle_bool 0 q && Qeq_bool (inject_Z (Qfloor q)) q.
+Definition kmeans_state_check (cosine : bool) (tol : Q) (data seeds : list Qv) (after : cstate Q) : nat :=
+  let d := dim_of data in
+  let cs := cluster_size after in
+  if negb (initted after) then 5
+  else if negb (forallb is_nat_q cs) then 6
+  else if negb (Qeq_bool (fsum Q_ops cs) (inject_Z (Z.of_nat (length data)))) then 1
+  else if negb (mclose tol (map2 (fun m b => vscale Q_ops b m) (embed after) cs) (embed_avg after)) then 2
+  else if negb cosine && negb (vclose tol (vsum Q_ops d (map2 (fun m b => vscale Q_ops b m) (embed after) cs)) (vsum Q_ops d data)) then 3
+  else if negb (forallb (fun s => existsb (veqb_q s) data) seeds) then 4
+  else 0.
+(* every code lies in the coordinate-wise bounding box of the data (necessary for being in the convex hull) *)
+Definition in_box (tol : Q) (data : list Qv) (v : Qv) : bool :=
+  forallb (fun i => let col := map (fun x => nth i x 0) data in
+                    let lo := fold_right (fun a b => if Qle_bool a b then a else b) (nth 0 col 0) col in
+                    let hi := fold_right (fun a b => if Qle_bool a b then b else a) (nth 0 col 0) col in
+                    Qle_bool (lo - tol) (nth i v 0) && Qle_bool (nth i v 0) (hi + tol)) (seq 0 (length v)).
+Definition kmeans_box_check (tol : Q) (data : list Qv) (after : cstate Q) : nat :=
+  if forallb (in_box tol data) (embed after) then 0 else 7.
